@@ -203,7 +203,7 @@ def random_object_spec(rng, cls=None, n=None, nfeat=None, degenerate=False):
     if cls == 'ChainedDiscretizer':
         spec['params']['unknown_handling'] = 'drop'
     if rng.random() < 0.15:      # user-chosen sentinels for missing / rare values
-        spec['params']['str_nan'] = 'MISSING'
+        spec['params']['str_nan'] = rng.choice(['MISSING', 'VALUE_NOT_AVAILABLE_AT_ALL_XYZ'])      # (30 characters)
         spec['params']['str_default'] = 'RARE'
     return spec
 
